@@ -397,12 +397,24 @@ def text_of(value):
     return str(value)
 
 
+def lone_item(value):
+    """ The item of a one-item list, however deep it is nested (as deep as the result of a formula
+    is looked into: a list that contains itself would be unwrapped for ever). """
+    for _ in range(8):
+        if not (isinstance(value, list) and len(value) == 1):
+            break
+        value = value[0]
+    return value
+
+
 def evaluate_arithmetic(op, lval, rval):
     lval, rval = as_lists(lval), as_lists(rval)  # rows handed in as tuples
-    if isinstance(lval, error.XLError):
-        return lval
-    if isinstance(rval, error.XLError):
-        return rval
+    # an error is the result whatever the other operand is (the left one first) - also the error
+    # that a one-cell range or one-item array holds
+    if isinstance(lone_item(lval), error.XLError):
+        return error.from_message(lone_item(lval))
+    if isinstance(lone_item(rval), error.XLError):
+        return error.from_message(lone_item(rval))
     for _ in range(2):
         # a one-item array acts as its item on the right ({1;2}+{1}): on the left as well
         if isinstance(lval, list) and len(lval) == 1 and isinstance(rval, list) and len(rval) > 1:
@@ -453,17 +465,12 @@ def evaluate_arithmetic(op, lval, rval):
 
 
 def evaluate_logic(op, lval, rval):
-    lval, rval = as_lists(lval), as_lists(rval)
-    for _ in range(2):
-        # a one-cell range ([[v]]) or one-item array is its item, as under the arithmetic operators
-        if isinstance(lval, list) and len(lval) == 1:
-            lval = lval[0]
-        if isinstance(rval, list) and len(rval) == 1:
-            rval = rval[0]
+    # a one-cell range ([[v]]) or one-item array is its item, as under the arithmetic operators
+    lval, rval = lone_item(as_lists(lval)), lone_item(as_lists(rval))
     if isinstance(lval, error.XLError):
-        return lval
+        return error.from_message(lval)
     if isinstance(rval, error.XLError):
-        return rval
+        return error.from_message(rval)
     try:
         return OPERATOR_DICT[op](ExcelComparator(lval), rval)
     except TypeError:
